@@ -1,4 +1,169 @@
-/- C16 — property theorems (stub; filled in by the owning work package). -/
-import Rdm.Basic
+/-
+  C16 — preference reversal mirrors the selected criteria inside their range.
+  Property theorems only (helper lemmas: Rdm/Lemmas/BiasAReversal.lean).  Model:
+  Rdm/Model/BiasesA.lean (`reversalApply`), tied to the Go code bit-for-bit by the stage
+  `reversal-apply` of harness/main/c16.go.
+-/
+import Rdm.Lemmas.BiasAReversal
+import Rdm.Lemmas.BiasARange
+import Rdm.Spec.C16
+set_option linter.unusedSectionVars false
+open Rdm Rdm.BiasA
 namespace Rdm.Props.C16
+variable {α : Type} [Num α]
+
+/-! ## the new value -/
+
+/-- `v ↦ max − v + min = max + min − v` -/
+theorem new_value_formula (r : Rat × Rat) (v : Rat) : reverseValue r v = r.2 + r.1 - v := by
+  unfold reverseValue; ring
+
+/-- mirroring twice with the same range restores the value -/
+theorem new_value_involution (r : Rat × Rat) (v : Rat) : reverseValue r (reverseValue r v) = v := by
+  unfold reverseValue; ring
+
+/-- the range is preserved: values inside `[lo, hi]` stay inside, the end points are exchanged (so the
+    observed minimum and maximum of a mirrored criterion are again `lo` and `hi`) -/
+theorem new_value_in_range {lo hi v : Rat} (h1 : lo ≤ v) (h2 : v ≤ hi) :
+    lo ≤ reverseValue (lo, hi) v ∧ reverseValue (lo, hi) v ≤ hi ∧
+      reverseValue (lo, hi) lo = hi ∧ reverseValue (lo, hi) hi = lo := by
+  unfold reverseValue
+  refine ⟨by linarith, by linarith, by ring, by ring⟩
+
+/-! ## selection: the same count / ordering rule as omission -/
+
+/-- the reversed criteria are the first `k` of the ordering (`k` = clamped pivot), reported in that
+    order with their type and with the range `CriteriaValuesRange` gives over all current alternatives -/
+theorem selected_first_k {eps : α} {c : SplitCond α} {name : String} {cur res : DMP α} {d : Draws α}
+    {rep : List (Reversed α)} (h : reversalApply eps c name cur d = .ok (res, rep)) :
+    ∃ ordered, ∃ toRev : List (Crit α × (α × α)), orderCriteria eps name cur d = .ok ordered ∧ ordered.Perm cur.crit ∧
+      toRev.map (·.1) = ordered.take (c.pivot cur.crit.length).toNat ∧
+      (∀ cr ∈ toRev, valuesRange cur.all cr.1 = .ok cr.2) ∧
+      rep.map (fun r => (r.id, r.type, r.range)) = toRev.map (fun cr => (cr.1.id, cr.1.type, cr.2)) := by
+  obtain ⟨_, ordered, sel, rest, ho, hs, hr⟩ := reversalApply_ok h
+  obtain ⟨toRev, resl, ht, _, _, _, _, _, hrep⟩ := reverseSelected_ok hr
+  obtain ⟨h1, h2⟩ := criteriaToReverse_ok ht
+  have hp := orderCriteria_perm ho
+  refine ⟨ordered, toRev, ho, hp, ?_, h2, ?_⟩
+  · rw [h1, (split_ok hs).2.2.1, hp.length_eq]
+  · rw [hrep, reversalReport_heads]
+
+/-- on the model's output the selection satisfies the count clause of the spec (shared with C15) -/
+theorem selected_countOk {eps : Rat} {c : SplitCond Rat} {name : String} {cur res : DMP Rat}
+    {d : Draws Rat} {rep : List (Reversed Rat)} (h : reversalApply eps c name cur d = .ok (res, rep)) :
+    Spec.C15.countOk c cur.crit.length rep.length = true := by
+  obtain ⟨hv, ordered, sel, rest, ho, hs, hr⟩ := reversalApply_ok h
+  obtain ⟨toRev, resl, ht, _, _, _, _, _, hrep⟩ := reverseSelected_ok hr
+  have hl : rep.length = sel.length := by
+    have := congrArg List.length (reversalReport_heads toRev cur.all (resl.map (·.2)))
+    rw [← hrep] at this
+    simp only [List.length_map] at this
+    rw [this, ← (criteriaToReverse_ok ht).1, List.length_map]
+  have := Rdm.BiasA.split_countOk hv hs
+  rw [hl, ← (orderCriteria_perm ho).length_eq]
+  exact this
+
+/-! ## frame: everything else is untouched -/
+
+/-- criteria list and method parameters are unchanged; ids, order and the considered /
+    not-considered split of the alternatives are unchanged -/
+theorem frame {eps : α} {c : SplitCond α} {name : String} {cur res : DMP α} {d : Draws α}
+    {rep : List (Reversed α)} (h : reversalApply eps c name cur d = .ok (res, rep)) :
+    res.crit = cur.crit ∧ res.mp = cur.mp ∧
+      res.co.map (·.id) = cur.co.map (·.id) ∧ res.nc.map (·.id) = cur.nc.map (·.id) := by
+  obtain ⟨_, ordered, sel, rest, _, _, hr⟩ := reversalApply_ok h
+  obtain ⟨toRev, resl, _, _, hnc, hco, hc, hm, _⟩ := reverseSelected_ok hr
+  exact ⟨hc, hm, updateAlts_ids hco, updateAlts_ids hnc⟩
+
+/-- every known alternative (considered and not considered): same id and criteria keys; the value of
+    every criterion that is not selected is untouched; every selected value `v` becomes
+    `max − v + min`.  Hypotheses: criteria ids and alternative ids are distinct (validated requests). -/
+theorem values_mirrored {eps : α} {c : SplitCond α} {name : String} {cur res : DMP α} {d : Draws α}
+    {rep : List (Reversed α)} (h : reversalApply eps c name cur d = .ok (res, rep))
+    (hc : (cur.crit.map (·.id)).Nodup) (ha : (cur.all.map (·.id)).Nodup) :
+    ∃ toRev : List (Crit α × (α × α)), rep.map (fun r => (r.id, r.range)) = toRev.map (fun cr => (cr.1.id, cr.2)) ∧
+      List.Forall₂ (Mirrored toRev) cur.co res.co ∧ List.Forall₂ (Mirrored toRev) cur.nc res.nc := by
+  obtain ⟨_, ordered, sel, rest, ho, hs, hr⟩ := reversalApply_ok h
+  obtain ⟨toRev, resl, ht, hm, hnc, hco, _, _, hrep⟩ := reverseSelected_ok hr
+  have hp := orderCriteria_perm ho
+  have hsel : (sel.map (·.id)).Nodup := by
+    have hnd : (ordered.map (·.id)).Nodup := (hp.map _).nodup_iff.2 hc
+    rw [← split_append hs, List.map_append] at hnd
+    exact (List.nodup_append.1 hnd).1
+  have hnd : (toRev.map (·.1.id)).Nodup := by
+    have := (criteriaToReverse_ok ht).1
+    rw [← this, List.map_map] at hsel
+    exact hsel
+  refine ⟨toRev, ?_, updated_mirrored hnd ha (fun a h => List.mem_append_left _ h) hm hco,
+    updated_mirrored hnd ha (fun a h => List.mem_append_right _ h) hm hnc⟩
+  rw [hrep]
+  have hh := reversalReport_heads toRev cur.all (resl.map (·.2))
+  have := congrArg (List.map fun t : String × String × (α × α) => (t.1, t.2.2)) hh
+  simpa [List.map_map, Function.comp_def] using this
+
+/-- reversing the same criteria a second time (with the same ranges) restores every value -/
+theorem involution {toRev : List (Crit Rat × (Rat × Rat))} {l l' l'' : List (Alt Rat)}
+    (h1 : List.Forall₂ (Mirrored toRev) l l') (h2 : List.Forall₂ (Mirrored toRev) l' l'') :
+    List.Forall₂ (fun a a'' => a''.id = a.id ∧ a''.vals.keys = a.vals.keys ∧
+      ∀ k, a''.vals.get? k = a.vals.get? k) l l'' := by
+  induction h1 generalizing l'' with
+  | nil => cases h2; exact .nil
+  | cons hab _ ih =>
+    cases h2 with
+    | cons hbc hrest => exact .cons (mirrored_twice hab hbc) (ih hrest)
+
+/-! ## ranges are preserved, and a second reversal restores the data (state level) -/
+
+/-- each criterion's range is preserved: for the mirrored criteria the declared range is untouched and
+    the observed minimum / maximum are exchanged; for all other criteria no value changes.
+    (`sel` = the selected criteria; ids of criteria and alternatives distinct.) -/
+theorem range_preserved {sel : List (Crit Rat)} {cur res : DMP Rat} {rep : List (Reversed Rat)}
+    (h : reverseSelected sel cur = .ok (res, rep)) (hs : (sel.map (·.id)).Nodup)
+    (ha : (cur.all.map (·.id)).Nodup) :
+    (∀ c ∈ sel, valuesRange res.all c = valuesRange cur.all c) ∧
+    (∀ c : Crit Rat, c.id ∉ sel.map (·.id) → valuesRange res.all c = valuesRange cur.all c) :=
+  reverseSelected_ranges h hs ha
+
+/-- reversing the same criteria a second time restores the data: every alternative holds its original
+    values again, criteria and parameters are still untouched, and the second report names the same
+    criteria with the same ranges -/
+theorem reversing_twice_restores {sel : List (Crit Rat)} {cur s1 s2 : DMP Rat} {r1 r2 : List (Reversed Rat)}
+    (h1 : reverseSelected sel cur = .ok (s1, r1)) (h2 : reverseSelected sel s1 = .ok (s2, r2))
+    (hs : (sel.map (·.id)).Nodup) (ha : (cur.all.map (·.id)).Nodup) :
+    let same := fun (a a'' : Alt Rat) => a''.id = a.id ∧ a''.vals.keys = a.vals.keys ∧ ∀ k, a''.vals.get? k = a.vals.get? k
+    List.Forall₂ same cur.co s2.co ∧ List.Forall₂ same cur.nc s2.nc ∧ s2.crit = cur.crit ∧ s2.mp = cur.mp ∧
+      r2.map (fun r => (r.id, r.type, r.range)) = r1.map (fun r => (r.id, r.type, r.range)) :=
+  reverseSelected_twice h1 h2 hs ha
+
+/-! ## the report -/
+
+/-- the report lists exactly the mirrored criteria (id, type, range) and, for every known alternative
+    (considered ++ not considered, as handed on), exactly the value it now holds for that criterion.
+    Hypotheses: the selected criteria ids and the alternative ids are distinct. -/
+theorem report_is_faithful {sel : List (Crit α)} {cur res : DMP α} {rep : List (Reversed α)}
+    (h : reverseSelected sel cur = .ok (res, rep)) (hs : (sel.map (·.id)).Nodup)
+    (ha : (cur.all.map (·.id)).Nodup) :
+    ∃ toRev, criteriaToReverse sel cur = .ok toRev ∧ toRev.map (·.1) = sel ∧
+      List.Forall₂ (ReportEntryOk res.all) toRev rep := by
+  obtain ⟨toRev, resl, ht, hm, hall, hrep⟩ := reverseSelected_all h ha
+  have h1 := (criteriaToReverse_ok ht).1
+  have hnd : (toRev.map (·.1.id)).Nodup := by
+    rw [← h1, List.map_map] at hs; exact hs
+  refine ⟨toRev, ht, h1, ?_⟩
+  rw [hall, hrep]
+  exact reversalReport_values hnd (mapM_ok_forall₂ hm)
+
+/-
+  Not proved here (checked on the implementation's output by `check-c16` and by the oracle
+  `reversal-involution` of harness/main/c16.go):
+  * `Spec.C16.check (model output) = true` as one statement — the clauses are proved separately above
+    (`selected_first_k`/`selected_countOk`, `values_mirrored`, `frame`, `range_preserved`,
+    `report_is_faithful`);
+  * the floating-point form of the involution (1e-9 relative on the real code, exact on dyadic data):
+    over the rationals it is `reversing_twice_restores`.
+-/
+/-- the constants and names this property depends on were re-read from the working tree on this run
+    (none fell back to its pinned value because its declaration could not be located) -/
+theorem facts_fresh : (Rdm.Facts.staleFacts.all fun n => !["orderingWeakest", "orderingStrongest", "orderingRandom", "orderingWeakestByProbability", "orderingStrongestByProbability", "wiringOrderings", "biasReversal"].contains n) = true := by decide
+
 end Rdm.Props.C16
